@@ -4,12 +4,12 @@ PROPS = {
     "C09": dict(pkg="rhp", level="fault_enumeration", stages=[
         direct("faults", "TestC09Faults", quick=dict(shards=4, timeout=900), thorough=dict(shards=8, timeout=3600)),
         direct("exhaustive", "TestC09Exhaustive", quick=dict(shards=4, timeout=900), thorough=dict(shards=8, timeout=3600)),
-        rapid("rapid", "TestC09", dict(shards=8, checks=150), dict(shards=16, checks=2000, timeout=3000)),
+        rapid("rapid", "TestC09", dict(shards=8, checks=150), dict(shards=16, checks=8000, timeout=7000)),
     ]),
     "C08": dict(pkg="rhp", level="exploration", stages=[
-        rapid("rapid", "TestC08", dict(shards=16, checks=250), dict(shards=16, checks=1500, timeout=3000)),
+        rapid("rapid", "TestC08", dict(shards=16, checks=250), dict(shards=16, checks=15000, timeout=7000)),
     ]),
     "C15": dict(pkg="rhp", level="exploration", stages=[
-        rapid("rapid", "TestC15", dict(shards=16, checks=200), dict(shards=16, checks=1500, timeout=3000)),
+        rapid("rapid", "TestC15", dict(shards=16, checks=200), dict(shards=16, checks=12000, timeout=7000)),
     ]),
 }
